@@ -511,6 +511,10 @@ pub fn run(opts: &Opts, out: &mut Emitter) {
         }
     }
     let corpus = frontp::example_corpus();
+    // every example and feature program as it stands
+    for (name, text) in corpus.iter() {
+        out.case("corpus", || json!({"input": text, "mutations": ["none"], "name": name, "obs": observe(text)}));
+    }
     for k in 0..opts.n {
         if k % 5 == 4 {
             // token-level mutations of the examples (chain-specific directives, policies with scripts …)
